@@ -556,15 +556,18 @@ func TypeAssertOk(pred func(types.Type) bool) VM {
 func BinOpV(op token.Token, a, b VM) VM {
 	return func(v ssa.Value) bool {
 		x, ok := strip(v).(*ssa.BinOp)
-		if !ok || x.Op != op {
+		if !ok {
 			return false
 		}
-		if a(x.X) && b(x.Y) {
+		if x.Op == op && a(x.X) && b(x.Y) {
 			return true
 		}
 		switch op {
 		case token.ADD, token.MUL, token.AND, token.OR, token.XOR, token.EQL, token.NEQ:
-			return a(x.Y) && b(x.X)
+			return x.Op == op && a(x.Y) && b(x.X)
+		case token.LSS, token.LEQ, token.GTR, token.GEQ:
+			// the mirrored spelling: a < b is b > a
+			return x.Op == swapOp(op) && a(x.Y) && b(x.X)
 		}
 		return false
 	}
@@ -1493,4 +1496,35 @@ func edgeOnlyFacts(pred, succ *ssa.BasicBlock) []Fact {
 		}
 	}
 	return nil
+}
+
+// cmpOf reads a comparison with a constant operand, if there is exactly one,
+// on the right (`0 < n` is read as `n > 0`), so that rules that look at the
+// operands of a test do not depend on the way it is spelled.
+func cmpOf(v ssa.Value) (op token.Token, x, y ssa.Value, ok bool) {
+	b, isB := v.(*ssa.BinOp)
+	if !isB || !isCmp(b.Op) {
+		return 0, nil, nil, false
+	}
+	op, x, y = b.Op, b.X, b.Y
+	if constOf(x) != nil && constOf(y) == nil {
+		x, y, op = y, x, swapOp(op)
+	}
+	return op, x, y, true
+}
+
+// cmpOriented reads comparison v as `x op y` with x satisfying first; ok is
+// false when neither operand does.
+func cmpOriented(v ssa.Value, first VM) (op token.Token, x, y ssa.Value, ok bool) {
+	b, isB := v.(*ssa.BinOp)
+	if !isB || !isCmp(b.Op) {
+		return 0, nil, nil, false
+	}
+	if first(b.X) {
+		return b.Op, b.X, b.Y, true
+	}
+	if first(b.Y) {
+		return swapOp(b.Op), b.Y, b.X, true
+	}
+	return 0, nil, nil, false
 }
